@@ -4,19 +4,22 @@ Space (every member is visited):
   declarations : every list of n commands (n <= 4 quick / n <= 5 thorough) where the parents of a
                  command are any subset of the commands declared before it (1+2+8+64(+1024) graphs)
                x every choice of internal ('!') commands that leaves at least one real command
-               x two assignments of names to positions (so that a two-element ``parents`` set is
-                 iterated in both orders under one hash seed)
+               x three assignments of names to positions: alpha..echo forwards and backwards (so that a
+                 two-element ``parents`` set is iterated in both orders under one hash seed) and
+                 list, all, list-all, v1.2, dry-run (names with '-' / '.' whose pieces are commands too)
                x default command {not given, the last real command}            (graphs of <= 4 commands;
                x order in which the per-parser options are added {declaration   5 commands: not given,
                  order, reverse}                                                 declaration order)
                x hash seeds {own} (quick) / {0, 1, 2} (thorough; other seeds run in sub-processes)
-  options      : per parser one value option (--opt-<name> V) and one flag with a short alias
-                 (-<letter> / --flag-<name>, store_true); one option added to the ArgParser itself
-  argv         : for every real command c and every parser p: [c, --opt-p, v], [c, --flag-p], [c, -p];
+  options      : per parser one value option (--<name>-opt V), one flag with a short alias
+                 (-<letter> / --<name>-flag, store_true) and a second option for the dest of each of them
+                 (--no-<name>-flag store_false, --default-<name>-opt store_const); one ArgParser-level option
+  argv         : for every real command c and every parser p: [c, --p-opt, v], [c, --p-flag], [c, -p],
+                 [c, --no-p-flag], [c, --default-p-opt];
                  for every real c: [c], all options c must accept in one argv, [c, --common, v], [c, -v],
                  [c, --color, never], [c, --no-color]; and without a command name: [], [-v],
-                 [--common, v], [--opt-p, v], [--flag-p] for every parser p; and argv whose LATER words are
-                 names of commands / internal option sets: [--common, <name>], [--opt-<default>, <name>, -v],
+                 [--common, v], [--p-opt, v], [--p-flag] for every parser p; and argv whose LATER words are
+                 names of commands / internal option sets: [--common, <name>], [--<default>-opt, <name>, -v],
                  [x, <name>], [-v, x, <name>, --common, <other name>] for every declared name (a positional
                  "words" argument is added to the ArgParser for this)
   seq          : every ordered pair of declarations with <= 3 commands (63 x 63; quick: the pairs in which at
@@ -54,7 +57,7 @@ RULE = ("case = one declaration (graph, internal flags, names, default command, 
         "inherited option and a rejected foreign option.")
 ASSUMPTIONS = [
     "parents refer to commands declared earlier (the implementation asserts this), so every declaration is acyclic",
-    "one optional '--opt-<name> VALUE' option per parser; option names are not prefixes of each other",
+    "options are spelled '--<name>-opt' / '--<name>-flag' so that no option string is a prefix (argparse abbreviation) of another",
     "argv whose first word is the name of an internal ('!') option set is outside the property (the "
     "repository's tests expect 'invalid choice'); counted, never judged",
 ]
@@ -65,9 +68,13 @@ REQUIRED_FEATURES = ["shape:no-edges", "shape:multi-parent", "shape:transitive",
                      "probe:own-option", "probe:inherited-direct", "probe:inherited-transitive",
                      "probe:foreign-option", "probe:common-option", "probe:std-option",
                      "probe:no-command", "probe:no-command-later-name", "probe:all-inherited-at-once",
+                     "names:punctuated-name-as-parent", "options:two-options-one-dest",
                      "seq:two-parsers"]
 
 NAMES = ["alpha", "bravo", "carol", "delta", "echo"]
+# names with '-' and '.', next to commands named like their pieces ('list', 'all')
+NAMES_PUNCT = ["list", "all", "list-all", "v1.2", "dry-run"]
+LETTERS = {nm: "-" + "abcde"[i] for pool in (NAMES, NAMES_PUNCT) for i, nm in enumerate(pool)}   # no -v / -h
 THOROUGH_SEEDS = ["0", "1", "2"]
 
 
@@ -80,7 +87,7 @@ def bounds(tier):
     return {"max_commands": n,
             "graphs": sum(2 ** (k * (k - 1) // 2) for k in range(1, n + 1)),
             "internal_flags": "all choices leaving >= 1 real command",
-            "name_assignments": 2, "default_command": ["not given", "last real command (n <= 4)"],
+            "name_assignments": 3, "default_command": ["not given", "last real command (n <= 4)"],
             "option_add_order": ["declaration", "reverse (n <= 4)"],
             "hash_seeds": [_own_hashseed()] if tier == "quick" else THOROUGH_SEEDS}
 
@@ -132,6 +139,8 @@ def _dflt(case):
 
 def _names(case):
     n = case["n"]
+    if case["naming"] == 2:
+        return NAMES_PUNCT[:n]
     pool = NAMES[:n]
     return pool if case["naming"] == 0 else pool[::-1]
 
@@ -174,7 +183,22 @@ def _parse(parser, argv):
 
 
 def _letter(name):
-    return "-" + name[0]          # alpha -> -a ... echo -> -e : no clash with -v / -h
+    return LETTERS[name]
+
+
+def _dest(prefix, name):
+    # argparse's own rule for deriving a dest from "--<name>-opt" / "--<name>-flag"
+    return name.replace("-", "_") + "_" + prefix.rstrip("_")
+
+
+def _o(name):
+    """Option strings are "--<name>-<kind>": no option is a prefix (= accepted abbreviation) of another one,
+    also for the names list / list-all."""
+    return "--" + name + "-opt"
+
+
+def _f(name):
+    return "--" + name + "-flag"
 
 
 def _construct(mod, case, acc, feats, bad):
@@ -203,9 +227,16 @@ def _construct(mod, case, acc, feats, bad):
         for i in order:
             acc.trans(2)
             cp = ap.get_cmd_parser(names[i])
-            cp.add_argument("--opt-" + names[i], help="option of " + names[i])
-            cp.add_argument(_letter(names[i]), "--flag-" + names[i], action="store_true",
+            cp.add_argument(_o(names[i]), help="option of " + names[i])
+            cp.add_argument(_letter(names[i]), _f(names[i]), action="store_true",
                             help="flag of " + names[i])
+            # a second option writing to the same dest as each of the two: store_true / store_false pair and
+            # value / const pair
+            acc.trans(2)
+            cp.add_argument("--no-" + names[i] + "-flag", action="store_false", dest=_dest("flag_", names[i]),
+                            help="opposite of " + _f(names[i]))
+            cp.add_argument("--default-" + names[i] + "-opt", action="store_const", const="dflt",
+                            dest=_dest("opt_", names[i]), help=_o(names[i]) + " dflt")
         if case["order"] == "fwd":
             acc.trans()
             ap.add_argument("--common", help="for every command")
@@ -263,9 +294,11 @@ def _probe_all(ap, case, acc, feats, bad, tag=""):
 
     def forms(p):
         nm = names[p]
-        return [(["--opt-" + nm, "val"], [("opt_" + nm, "val")], ""),
-                (["--flag-" + nm], [("flag_" + nm, True)], ":flag"),
-                ([_letter(nm)], [("flag_" + nm, True)], ":short")]
+        return [([_o(nm), "val"], [(_dest("opt_", nm), "val")], ""),
+                ([_f(nm)], [(_dest("flag_", nm), True)], ":flag"),
+                ([_letter(nm)], [(_dest("flag_", nm), True)], ":short"),
+                (["--no-" + nm + "-flag"], [(_dest("flag_", nm), False)], ":second-option-same-dest"),
+                (["--default-" + nm + "-opt"], [(_dest("opt_", nm), "dflt")], ":second-option-same-dest")]
 
     for c in real:
         cmd_before = nbad[0]
@@ -289,8 +322,8 @@ def _probe_all(ap, case, acc, feats, bad, tag=""):
                     probe([names[c]] + argv, c, want_attrs, want, kind, "foreign-option-accepted" + suffix,
                           rej + suffix)
             if want:
-                everything += ["--opt-" + names[p], "v" + str(p), _letter(names[p])]
-                attrs += [("opt_" + names[p], "v" + str(p)), ("flag_" + names[p], True)]
+                everything += [_o(names[p]), "v" + str(p), _letter(names[p])]
+                attrs += [(_dest("opt_", names[p]), "v" + str(p)), (_dest("flag_", names[p]), True)]
         if nbad[0] == cmd_before:
             probe(everything + ["--common", "cv", "-vv"], c, attrs + [("common", "cv"), ("verbose", 2)], True,
                   "probe:all-inherited-at-once", "-", "combined-options-rejected")
@@ -319,7 +352,8 @@ def _probe_all(ap, case, acc, feats, bad, tag=""):
             break
         probe(["--common", names[k]], dflt, [("common", names[k])], True, "probe:no-command-later-name", "-",
               "default-command-later-word-is-a-name")
-        probe(["--opt-" + names[dflt], names[k], "-v"], dflt, [("opt_" + names[dflt], names[k]), ("verbose", 1)],
+        probe([_o(names[dflt]), names[k], "-v"], dflt,
+              [(_dest("opt_", names[dflt]), names[k]), ("verbose", 1)],
               True, "probe:no-command-later-name", "-", "default-command-later-word-is-a-name")
         probe(["x", names[k]], dflt, [("words", ["x", names[k]])], True, "probe:no-command-later-name", "-",
               "default-command-later-word-is-a-name")
@@ -340,6 +374,10 @@ def _case_features(case):
     parents, internal = case["parents"], [bool(x) for x in case["internal"]]
     feats = set(M.shape_features(parents, internal)) | _parents_iteration_features(case)
     feats.add("default:explicit" if _dflt(case) is not None else "default:implicit")
+    names = _names(case)
+    if any(("-" in names[p] or "." in names[p]) for ps in parents for p in ps):
+        feats.add("names:punctuated-name-as-parent")
+    feats.add("options:two-options-one-dest")
     # the probes this declaration calls for (from the model, so that the vacuity guard describes the explored
     # space and not the behaviour of the implementation)
     anc = M.ancestors(parents)
@@ -480,7 +518,8 @@ def _explore_block(hs, n, lo, hi, acc):
     for parents in graphs:
         for internal in M.internal_choices(n):
             real = [i for i in range(n) if not internal[i]]
-            for naming in (0, 1):
+            # n == 5 under the additional hash seeds: one name assignment (the seed itself varies the set order)
+            for naming in ((0, 1, 2) if (n <= 4 or hs == THOROUGH_SEEDS[0]) else (0,)):
                 # n == 5 (thorough only): the default-command and option-order decorations were
                 # already multiplied with every graph of <= 4 commands; keep the plain ones
                 for dflt in (("-", str(real[-1])) if n <= 4 else ("-",)):
